@@ -415,7 +415,7 @@ SUBCHECKS = [
     Sub('vcv', gen_vcv, ev_vcv, chunk=1, floor=200, guard=True, envs=3),
     Sub('ellipse', gen_ell, ev_ell, chunk=1, floor=30, guard=True, envs=2),
     Sub('ktable', gen_k, ev_k, chunk=1, floor=200, parallel=False, guard=True),
-    Sub('threads', _tg, _te, chunk=1, floor=3, poison=False, fresh=True, timeout=3600),
+    Sub('threads', _tg, _te, chunk=1, floor=3, poison=False, fresh=True, timeout=7200),
     Sub('callforms', *_cf.make('C16', 'statistics'), chunk=1, floor=1, guard=True),
     Sub('interpreter', *_ip.make('C16', 'statistics'), chunk=1, floor=5, poison=False),
 ]
